@@ -61,6 +61,8 @@ CURATED_DAGS = {
     "multi_src_sink": [("a", "c"), ("b", "c"), ("c", "d"), ("c", "e")],
     "bubble_chain": [("a", "b"), ("a", "c"), ("b", "d"), ("c", "d"), ("d", "e"), ("d", "f"), ("e", "f")],
     "ladder": [("a", "b"), ("b", "c"), ("c", "d"), ("a", "c"), ("b", "d")],
+    "funnel": [("a", "b"), ("a", "c"), ("b", "d"), ("c", "d"), ("d", "e")],
+    "bowtie": [("a", "c"), ("b", "c"), ("c", "d"), ("d", "e"), ("d", "f")],
 }
 
 CURATED_DIGRAPHS = {
